@@ -270,10 +270,33 @@ structure Quirks where
 def Quirks.asIs : Quirks := ⟨true, true, true⟩
 def Quirks.none : Quirks := ⟨false, false, false⟩
 
-/-- the value handed to `__set__`: the live container itself, or another collection -/
+def kindOfSet (isSet : Bool) : Kind := if isSet then .set else .list
+/-- `super().append(x)` / `super().add(x)` -/
+def rawAdd (isSet : Bool) (c : List Nat) (x : Nat) : List Nat := storeAdd (kindOfSet isSet) c x
+
+/-- an iterable computed from the live container, usually lazily: it reads the container when it is consumed -/
+inductive View where
+  | filt (keep : List Nat)   -- `(x for x in a.f if pred(x))` / `filter(pred, a.f)`; `keep` = the elements satisfying pred
+  | rev                      -- `reversed(a.f)` (lists only)
+  | iter                     -- `iter(a.f)`
+  | chain (xs : List Nat)    -- `itertools.chain(a.f, xs)`
+  | keys                     -- `dict.fromkeys(a.f)` (eager: first occurrences, in order)
+  deriving Repr, DecidableEq
+
+/-- what the iterable yields when it is consumed while the container holds `c` -/
+def View.eval : View → List Nat → List Nat
+  | .filt keep, c => c.filter (fun x => keep.contains x)
+  | .rev, c => c.reverse
+  | .iter, c => c
+  | .chain xs, c => c ++ xs
+  | .keys, c => c.foldl (rawAdd true) []
+
+/-- the value handed to `__set__`: the live container itself, another collection, or an iterable over the live
+container -/
 inductive Assigned where
   | same
   | other (xs : List Nat)
+  | lazyOf (v : View)
   deriving Repr, DecidableEq
 
 structure CState where
@@ -288,13 +311,10 @@ inductive COp where
   | setitem (i : Int) (x : Nat)
   | assign (xs : List Nat)           -- `a.f = <fresh list / set>`
   | assignSelf                       -- `a.f = a.f`
+  | assignView (v : View)            -- `a.f = <iterable over a.f>`, e.g. `a.f = filter(pred, a.f)`
   | iadd (xs : List Nat)             -- `a.f += xs` / `a.f |= xs`
   | iaddAlias (xs : List Nat)        -- `c = a.f; c += xs` / `c |= xs` (the operator without re-assignment)
   deriving Repr, DecidableEq
-
-def kindOfSet (isSet : Bool) : Kind := if isSet then .set else .list
-/-- `super().append(x)` / `super().add(x)` -/
-def rawAdd (isSet : Bool) (c : List Nat) (x : Nat) : List Nat := storeAdd (kindOfSet isSet) c x
 
 /-- where `list.insert(i, _)` puts the element in a list of length `n` (negative indices count from the end,
 everything is clamped) -/
@@ -325,6 +345,8 @@ def setterC (Q : Quirks) (isSet : Bool) (σ : CState) (v : Assigned) : CState :=
   let items := match v with
     | .same => if Q.setterClearsAlias then [] else walkOrder Q isSet σ.c   -- as is: read after `attr._clear()`
     | .other xs => walkOrder Q isSet xs
+    -- repaired: `list(value)` is taken before `_clear()`; with the quirk the iterable is consumed after it
+    | .lazyOf v => walkOrder Q isSet (v.eval (if Q.setterClearsAlias then [] else σ.c))
   items.foldl (addItemC isSet) ⟨[], σ.calls⟩
 
 /-- `list.__iadd__` / `set.__ior__` -/
@@ -338,6 +360,7 @@ def stepC (Q : Quirks) (isSet : Bool) (σ : CState) : COp → CState
   | .setitem i x => ⟨pySetItem σ.c i x, σ.calls ++ [x]⟩     -- `_on_add`, then `list.__setitem__`
   | .assign xs => setterC Q isSet σ (.other xs)
   | .assignSelf => setterC Q isSet σ .same
+  | .assignView v => setterC Q isSet σ (.lazyOf v)
   | .iadd xs => setterC Q isSet (inplaceC Q isSet σ xs) .same   -- `t = a.f.__iadd__(xs); a.f = t`
   | .iaddAlias xs => inplaceC Q isSet σ xs
 
@@ -352,6 +375,7 @@ def specStepC (isSet : Bool) (σ : CState) : COp → CState
   | .setitem i x => ⟨pySetItem σ.c i x, σ.calls ++ [x]⟩
   | .assign xs => ⟨xs.foldl (rawAdd isSet) [], σ.calls ++ xs⟩
   | .assignSelf => σ
+  | .assignView v => ⟨(v.eval σ.c).foldl (rawAdd isSet) [], σ.calls ++ v.eval σ.c⟩   -- evaluated BEFORE the assignment
   | .iadd xs => ⟨xs.foldl (rawAdd isSet) σ.c, σ.calls ++ xs⟩
   | .iaddAlias xs => ⟨xs.foldl (rawAdd isSet) σ.c, σ.calls ++ xs⟩
 
@@ -361,6 +385,7 @@ def specC (isSet : Bool) (σ : CState) (ops : List COp) : CState := ops.foldl (s
 def COp.okFor (Q : Quirks) (isSet : Bool) : COp → Bool
   | .assign xs => isSet || !Q.setterHashOrder || hashOrder xs == xs
   | .assignSelf => !Q.setterClearsAlias && (isSet || !Q.setterHashOrder)
+  | .assignView _ => !Q.setterClearsAlias && (isSet || !Q.setterHashOrder)
   | .iadd _ => !Q.setterClearsAlias && (isSet || !Q.setterHashOrder)
   | .iaddAlias _ => !Q.inplaceBypass
   | _ => true
@@ -369,13 +394,100 @@ def COp.okFor (Q : Quirks) (isSet : Bool) : COp → Bool
 def COp.applicable (isSet : Bool) : COp → Bool
   | .insert _ _ => !isSet
   | .setitem _ _ => !isSet
+  | .assignView .rev => !isSet
   | _ => true
 
 /-- triggers of the four findings (decidable on the input) -/
-def trigSelfAssign (ops : List COp) : Bool := ops.any fun o => o == .assignSelf
+def trigSelfAssign (ops : List COp) : Bool :=
+  ops.any fun o => match o with | .assignSelf => true | .assignView _ => true | _ => false
 def trigIadd (ops : List COp) : Bool := ops.any fun o => match o with | .iadd _ => true | _ => false
 def trigListOrder (isSet : Bool) (ops : List COp) : Bool :=
   !isSet && ops.any fun o => match o with | .assign xs => hashOrder xs != xs | _ => false
 def trigBypass (ops : List COp) : Bool := ops.any fun o => match o with | .iaddAlias _ => true | _ => false
+
+/-! ### C16, two owners: a field whose FIRST assignment receives the live container of another instance
+
+`b = Cls(f = a.f)` (also `dataclasses.replace`, `b.f = a.f` on an uninitialised field): `_ensure_monitored_type`
+adopts the monitored container as it is, so both fields hold ONE container whose owner is re-bound on every
+attribute access. -/
+
+inductive Who where | A | B
+  deriving Repr, DecidableEq
+
+inductive TOp where
+  | on (w : Who) (op : COp)   -- a write through `a.f` / `b.f`
+  | adopt                     -- `b = Cls(f = a.f)`
+  deriving Repr, DecidableEq
+
+structure TQuirks where
+  adoptShares : Bool   -- F-C16-5: the first assignment adopts the other instance's container (the fields alias)
+  ctorBreaks : Bool    -- F-C16-6: constructor-time inference writes into a backing field `__init__` has not set yet
+  deriving Repr, DecidableEq
+
+def TQuirks.asIs : TQuirks := ⟨true, true⟩
+def TQuirks.none : TQuirks := ⟨false, false⟩
+
+structure TState where
+  a : CState
+  b : CState
+  shared : Bool   -- both fields are one container
+  owner : Who     -- whom that one container is bound to (`_owner_ref`), re-bound by every `__get__`
+  broke : Bool    -- the constructor raised AttributeError
+  deriving Repr, DecidableEq
+
+/-- `later` = the written field has a super-property field on the same class that is declared after it -/
+def stepT (Q : Quirks) (T : TQuirks) (later isSet : Bool) (σ : TState) (op : TOp) : TState :=
+  if σ.broke then σ else
+  match op with
+  | .adopt =>
+    let items := walkOrder Q isSet σ.a.c       -- `values = list(value)`, then clear and re-add with owner `b`
+    if T.ctorBreaks && later && !items.isEmpty then { σ with broke := true }
+    else
+      let c' := items.foldl (rawAdd isSet) []
+      if T.adoptShares then
+        { σ with a := ⟨c', σ.a.calls⟩, b := ⟨c', σ.b.calls ++ items⟩, shared := true, owner := .B }
+      else { σ with b := ⟨c', σ.b.calls ++ items⟩ }
+  | .on w op =>
+    if σ.shared then
+      -- every operation reads the field first (`__get__` re-binds the owner to the accessing instance) except the
+      -- assignment of a fresh collection: `__set__` does not re-bind, the hook reports to the last accessor
+      let tgt := match op with | .assign _ => σ.owner | _ => w
+      match tgt with
+      | .A => let a' := stepC Q isSet σ.a op; { σ with a := a', b := ⟨a'.c, σ.b.calls⟩, owner := .A }
+      | .B => let b' := stepC Q isSet σ.b op; { σ with b := b', a := ⟨b'.c, σ.a.calls⟩, owner := .B }
+    else
+      match w with
+      | .A => { σ with a := stepC Q isSet σ.a op }
+      | .B => { σ with b := stepC Q isSet σ.b op }
+
+def runT (Q : Quirks) (T : TQuirks) (later isSet : Bool) (σ : TState) (ops : List TOp) : TState :=
+  ops.foldl (stepT Q T later isSet) σ
+
+/-- **Spec.** every managed field owns its contents: the new instance gets the elements (each asserted for IT), and
+later writes through one field neither show up in the other nor are recorded for the other owner -/
+def specStepT (isSet : Bool) (σ : TState) : TOp → TState
+  | .adopt => { σ with b := ⟨σ.a.c.foldl (rawAdd isSet) [], σ.b.calls ++ σ.a.c⟩ }
+  | .on .A op => { σ with a := specStepC isSet σ.a op }
+  | .on .B op => { σ with b := specStepC isSet σ.b op }
+
+def specT (isSet : Bool) (σ : TState) (ops : List TOp) : TState := ops.foldl (specStepT isSet) σ
+
+def TOp.applicable (isSet : Bool) : TOp → Bool
+  | .on _ op => op.applicable isSet
+  | .adopt => true
+
+/-- well-formed two-owner sequence: at most one `adopt`, writes through `b` only after it -/
+def twoOk : Bool → List TOp → Bool
+  | _, [] => true
+  | false, .adopt :: r => twoOk true r
+  | true, .adopt :: _ => false
+  | seen, .on .A _ :: r => twoOk seen r
+  | seen, .on .B _ :: r => seen && twoOk seen r
+
+/-- trigger of F-C16-5: something is written after the adoption -/
+def trigAdoptShares : List TOp → Bool
+  | [] => false
+  | .adopt :: r => !r.isEmpty
+  | _ :: r => trigAdoptShares r
 
 end KrroodVerif.PD
